@@ -7,12 +7,25 @@ Template, and compared with an independent reference interpreter of the IR
 arguments and evaluates expression leaves).
 
 Families (each enumerated completely, no sampling)
-  bind  signature x argument list x call form x flag x placement      (argument binding, arity errors)
-  flags every flag subset x call form x placement x callee shape x template configuration
-        (buffered / filter= / decorator= / buffer_filters / default filters)
-  tree  every program tree of weight <= W over the full alphabet, and of weight W+1 over the core alphabet
-        (calls with content nested in callee bodies, call bodies, nested defs, loops, anonymous blocks;
-         caller.body() 0..n times, capture(caller.body), caller.named(); a caller-identity probe after every call)
+  bind  signature x argument list x call form x flag set x placement   (argument binding, arity errors)
+  flags every flag subset x call form x placement x callee shape x body args x template configuration
+        (buffered / filter= / decorator= / buffer_filters / default filters), also from a call body and a loop;
+        plus a def written inside a call that is itself invoked with content
+  tree  every program tree of weight <= W over the full alphabet, and of weight W+1 over a smaller alphabet
+        (calls with content nested in callee bodies, call bodies, nested defs, defs inside calls, loops,
+         anonymous filtered blocks; caller.body() 0..n times, capture(caller.body), caller.named();
+         a caller-identity probe after every call)
+
+Oracles: rendered text == reference text; TypeError where Python's binding rules raise it; after a successful
+render the Context's buffer stack and caller stack are as before; a second render gives the same text.
+
+Violations of four recorded defects are recognised by a footprint test (an alternative model or a neutralised
+program must reproduce mako's outcome exactly) and get the fixed signatures
+  bind:bare-star-dropped
+  calldef-decorator:not exported on caller
+  calldef-caller:sees the call site's caller
+  calldef-leak:def of an inner call exported on the outer caller
+every other disagreement gets a signature made of the family and the first differing output tokens.
 """
 
 import itertools
@@ -33,14 +46,18 @@ TECHNIQUE = (
     "lexical caller, Python-bound arguments); plus a state-restored check on Context"
 )
 RULE = (
-    "bind: every (signature, argument list | attribute list, call form, flag, placement) tuple of the stated pools; "
-    "flags: every (flag subset of {buffered, filter=f1 | f1,f2, decorator}, call form, placement top/nested/def-inside-call, "
-    "callee shape, body-args, template configuration) tuple; tree: every statement sequence (<=3 statements per block) of "
-    "weight <= W where a call weighs 1 + 1 per flag + 1 for a form other than ${f()} / <%call> + 1 for body args + 1 for a "
-    "nested placement + 1 for a def inside the call, caller.body()/capture(caller.body)/caller.named() weigh 1, % for and "
-    "<%block filter> weigh 1; call nesting <= depth. Canonical = the program tree (distinct trees print to distinct "
-    "sources). Non-trivial = >= 2 nested calls with content, or a def with >= 2 flags or a flag on a def called with "
-    "content (tree, flags); a signature with defaults/*/** or an argument list using keywords/unpacking (bind)."
+    "bind: every (signature, argument list | tag attribute list, call form of 9, flag set, top-level | nested placement) "
+    "tuple of the pools SIGS x ARGS/ATTRS; flags: every (flag subset of {buffered, filter=f1 | f1,f2, decorator} (12), call "
+    "form (9), placement top / nested / def inside the call, callee shape, body args, template configuration "
+    "{plain, buffer_filters, default_filters, both}) tuple, each also issued from another call's body and from a loop, plus "
+    "the def-inside-a-call invoked with content; tree: every statement sequence (<= 3 statements per block) of weight <= W "
+    "over the full alphabet and of weight W+1 over a smaller alphabet, where a call weighs 1 + 1 per flag + 1 for a form "
+    "other than ${f()} / <%call expr> + 1 for body args + 1 for nested placement + 1 for a def inside the call, and "
+    "caller.body() / capture(caller.body) / caller.named() / % for / <%block filter> weigh 1 each; call nesting <= depth; "
+    "after every call a caller-identity probe ${caller.body(..) if caller else '~'}. Canonical = the program tree "
+    "(distinct trees print to distinct sources; states = programs). Non-trivial = >= 2 nested calls with content, or a "
+    "def with >= 2 flags, or a flag on a def called with content (tree, flags); a signature with defaults/*/** or an "
+    "argument list using keywords/unpacking or a tag attribute list (bind)."
 )
 ASSUMPTIONS = [
     "the reference interpreter (mc/c05_ref.py, ~200 lines) implements DESIGN Appendix A1/A3 only; CPython eval/exec/str are trusted",
@@ -53,6 +70,8 @@ ASSUMPTIONS = [
     "Template(imports=...)",
     "exceptions: only the class of arity errors (TypeError) is compared; buffer/caller stack balance is checked after "
     "successful renders only (exception paths belong to C13)",
+    "`caller` inside a def written in a call is compared only when that def is itself invoked with content (then the "
+    "statement fixes it); anonymous blocks are generated with filter= only (buffered/decorated blocks: not fixed)",
     "transitions = IR statements executed (counted by the reference; equal on the implementation when outputs agree)",
 ]
 
@@ -70,10 +89,12 @@ def alphabets():
         # everything: 9 call forms, all 12 flag subsets, 3 body-arg shapes, nested placement, def inside the call,
         # caller.body() / capture(caller.body) / caller.named(), % for, <%block filter>
         "full": ir.Alphabet("full", forms=ir.EXPR_FORMS + ir.TAG_FORMS, flags=ir.ALL_FLAGS, form_cost=_FC, **cost),
-        # deeper, thorough tier: three call forms, {none, buffered, filter}, body args {none, x}
+        # one weight deeper, thorough tier: ${f()}, <%call>, <%self:f>; {none, buffered, filter}; body args {none, x};
+        # def inside the call; caller.body(), caller.named(); % for; no blocks, no nested placement
         "core": ir.Alphabet("core", forms=("bare", "tcall", "tself"), flags=(N_, B_, F_), bodyargs=(0, 1), cb_modes=("plain",),
-                            nested=False, form_cost={"tself": 1}, **cost),
-        # deeper, quick tier: ${f()} and <%call>, {none, buffered}, no body args, no blocks
+                            nested=False, blocks=False, form_cost={"tself": 1}, **cost),
+        # one weight deeper, quick tier: ${f()} and <%call>; {none, buffered}; def inside the call; caller.body(),
+        # caller.named(); % for
         "mini": ir.Alphabet("mini", forms=("bare", "tcall"), flags=(N_, B_), bodyargs=(0,), cb_modes=("plain",),
                             nested=False, blocks=False, **cost),
     }
@@ -88,7 +109,7 @@ BOUNDS = {
     },
     "thorough": {
         "tree": [{"alphabet": "full", "W": [1, 2, 3, 4, 5], "depth": 4}, {"alphabet": "core", "W": [6], "depth": 4}],
-        "bind": {"sigs": 9, "flags": [list(f) for f in ir.ALL_FLAGS]},
+        "bind": {"sigs": 10, "flags": [list(N_), list(B_), list(F_), list(D_), [True, 2, True]]},
         "flags": {"cfgs": [0, 1, 2, 3]},
         "block_len": 3,
     },
@@ -105,12 +126,13 @@ SIGS = [
     ("a, *, k=3", ["a", "k"]),
     ("**kw", ["kw"]),
     ("a, *rest, k, **kw", ["a", "rest", "k", "kw"]),
+    ("a=1, b=2, *r, j=4, k=5", ["a", "b", "r", "j", "k"]),
     ("a, *, k", ["a", "k"]),
     ("a=1, *, k", ["a", "k"]),
 ]
 ARGS = [
     "", "1", "1, 2", "1, 2, 3", "a=1", "1, k=5", "1, b=7", "k=5", "1, 2, k=5, z=9", "*[1, 2]", "**{'a': 1}", "v",
-    "1, *[2], **{'k': 3}", "a=1, k=2", "g0()", "1, k=g0()",
+    "1, *[2], **{'k': 3}", "a=1, k=2", "g0()", "1, k=g0()", "7, j=8",
 ]
 ATTRS = [
     [],
@@ -133,7 +155,7 @@ def bind_program(sig, params, args, form, fl, nested, seed):
     name = pre + "1"
     body = [["text", name + "("]]
     for p in params:
-        body += [["text", p + "="], ["expr", p], ["text", ";"]]
+        body += [["text", p + "="], ["expr", "repr(%s)" % p], ["text", ";"]]  # repr: '1' and 1 must not look alike
     content = None
     if form in ir.TAG_FORMS:
         body.append(["expr", "caller.body() if caller else '~'"])
@@ -310,7 +332,10 @@ def _diff_sig(exp, obs):
     i = 0
     while i < min(len(exp), len(obs)) and exp[i] == obs[i]:
         i += 1
-    return "exp=%r obs=%r" % (_norm(exp[max(0, i - 1): i + 3]), _norm(obs[max(0, i - 1): i + 3]))
+    e, o = exp[i: i + 2], obs[i: i + 2]
+    if _norm(e) != _norm(o):
+        e, o = _norm(e), _norm(o)
+    return "exp=%r obs=%r" % (e, o)
 
 
 def _bare_star(sig):
@@ -361,6 +386,10 @@ def _has_decorated_calldef(prog):
     return any(d["deco"] for c in _walk_contents(prog) for d in c["named"])
 
 
+def _has_inner_calldef(prog):
+    return any(True for c in _walk_contents(prog) for _ in ref.inner_call_defs(c["body"]))
+
+
 def _strip_calldef_deco(prog):
     p = json.loads(json.dumps(prog))
     for c in _walk_contents(p):
@@ -373,7 +402,7 @@ def outcome_class(family, exp, got):
     if got[0] != "ok":
         return (family, got[0], got[1])
     o = got[1]
-    feats = "".join(t for t, m in (("~", "~"), ("d", "<d>"), ("1", "<1:"), ("2", "{2:"), ("b", "(b:"), ("e", "`"), ("^", "^"), ("c", "{"), ("n", "named{"), ("l", "\n")) if m in o)
+    feats = "".join(t for t, m in (("~", "~"), ("d", "<d>"), ("1", "<1:"), ("2", "{2:"), ("b", "(b:"), ("e", "`"), ("^", "^"), ("c", "{"), ("n", "named"), ("l", "\n")) if m in o)
     return (family, "ok", feats)
 
 
@@ -428,6 +457,10 @@ def check_program(st, family, prog, nontrivial, extra=None):
         # footprint of "a def written inside a call sees the call site's caller instead of its own"
         if ("ok", got[1]) == tuple(ref.expected(prog, calldef_caller="outer")):
             viol = ("calldef-caller:sees the call site's caller",) + viol[1:]
+    if viol is not None and got[0] == "ok" and _has_inner_calldef(prog):
+        # footprint of "the defs of a call nested in a call's body are exported on the outer caller too"
+        if ("ok", got[1]) == tuple(ref.expected(prog, calldef_leak=True)):
+            viol = ("calldef-leak:def of an inner call exported on the outer caller",) + viol[1:]
     if viol is not None:
         st.violation(viol[0], case, viol[1], expected=viol[2], observed=viol[3])
     if got[0] == "ok":
@@ -455,7 +488,6 @@ def plan(tier, seed):
 def run_job(job):
     st = Stats()
     t0 = time.process_time()
-    w0 = time.time()
     fam, seed = job["family"], job["seed"]
     sh, ns = job["shard"], job["nshards"]
     n = 0
@@ -471,8 +503,15 @@ def run_job(job):
     st.extra["programs_" + fam] = n
     st.extra["cpu_s"] = round(time.process_time() - t0, 2)
     st.extra["cpu_s_" + fam] = round(time.process_time() - t0, 2)
-    st.extra["job_wall_max_s"] = {"%s/%d" % (fam, sh): round(time.time() - w0, 1)} if sh == 0 else {}
     return st
+
+
+def post(tier, seed, st):
+    """smallest witness of each signature first (workers finish in any order)"""
+    st.violations.sort(key=lambda v: (v["sig"], len(v["case"].get("src", "")), v["case"].get("src", "")))
+    for k in ("cpu_s", "cpu_s_tree", "cpu_s_bind", "cpu_s_flags"):
+        if k in st.extra:
+            st.extra[k] = round(st.extra[k], 1)
 
 
 def replay(case):
@@ -489,41 +528,55 @@ def replay(case):
 # corpus for the cross-path property (C08)
 
 
+def _corpus_ok(prog, item):
+    """leave out programs that run into the recorded defects, so that `expected` holds on the unchanged tree"""
+    if _bare_star(item.get("sig", "")) or item.get("calldef") or _has_decorated_calldef(prog):
+        return False
+    return True
+
+
 def corpus(limit=400):
-    """<= limit representative programs of the smallest non-trivial bound: deterministic, simplest first, spread over
-    all construct kinds.  Each: {"files", "main", "ctx", "expected", "template_kwargs"}."""
+    """<= limit representative programs of the smallest non-trivial bound (tree weight <= 3, the flags and bind
+    products): deterministic, simplest first, spread over all construct kinds.
+    Each: {"files": {uri: text}, "main": uri, "ctx", "expected": text | None (arity TypeError), "template_kwargs"}."""
     seed = 0
     A = alphabets()["full"]
-    groups = []
     tree = []
     for w in (1, 2, 3):
         for skel in ir.iter_programs(A, 3, w):
             tree.append({"family": "tree", "skel": skel, "cfg": 0})
-    # spread: bucket the tree programs by the kind of their first statement / call form, then round-robin
+    # spread: bucket by the kind of the first statement / call form / flags, then round-robin over the buckets
     buckets = {}
     for it in tree:
-        s = it["skel"][0]
-        key = (s[0], s[1] if s[0] == "call" else "", len(it["skel"]))
-        buckets.setdefault(key, []).append(it)
-    groups.append(_round_robin(list(buckets.values())))
+        buckets.setdefault(_features(it["skel"]), []).append(it)
+    groups = [_round_robin(list(buckets.values()))]
     fb = {}
-    for it in iter_flags("quick", seed):
-        s = it["skel"][0]
-        fb.setdefault((it["cfg"], s[1] if s[0] == "call" else s[0]), []).append(it)
+    for it in iter_flags("thorough", seed):
+        if "skel" not in it:
+            continue
+        fb.setdefault((it["cfg"],) + _features(it["skel"]), []).append(it)
     groups.append(_round_robin(list(fb.values())))
     bb = {}
     for it in iter_bind("quick", seed):
-        bb.setdefault(it["sig"], []).append(it)
+        bb.setdefault((it["sig"], it["prog"]["body"][1][1]), []).append(it)
     groups.append(_round_robin(list(bb.values())))
     out = []
+    nerr = 0
     quota = [limit // 2, limit // 4, limit - limit // 2 - limit // 4]
     for g, q in zip(groups, quota):
-        for it in g[:q]:
+        n = 0
+        for it in g:
+            if n >= q:
+                break
             prog, _ = materialise(it, seed)
-            try:
-                exp = ref.expected(prog)
-            except Exception:  # noqa
+            if not _corpus_ok(prog, it):
                 continue
+            exp = ref.expected(prog)
+            if exp[0] != "ok":
+                if nerr >= 8:
+                    continue
+                nerr += 1
+            n += 1
             out.append({
                 "files": {"main": ir.print_program(prog)},
                 "main": "main",
@@ -532,6 +585,39 @@ def corpus(limit=400):
                 "template_kwargs": ir.template_kwargs(prog),
             })
     return out[:limit]
+
+
+def _features(skel):
+    """the set of construct kinds a skeleton uses"""
+    out = set()
+
+    def walk(stmts, where):
+        for s in stmts:
+            if s[0] == "call":
+                _, form, fl, pl, content, callee = s[:6]
+                out.add(form)
+                out.add("at:" + where)
+                out.add("flags:%d%d%d" % (fl[0], fl[1], fl[2]))
+                if pl == "nested":
+                    out.add("nested")
+                if content is not None:
+                    out.add("ba:%d" % content[0])
+                    if content[1] is not None:
+                        out.add("named")
+                        walk(content[1], "named")
+                    walk(content[2], "content")
+                walk(callee, "def")
+            elif s[0] == "for":
+                out.add("for")
+                walk(s[1], where)
+            elif s[0] == "block":
+                out.add("block")
+                walk(s[2], where)
+            else:
+                out.add(s[0] + ":" + (s[1] if len(s) > 1 else ""))
+
+    walk(skel, "body")
+    return tuple(sorted(out))
 
 
 def _round_robin(lists):
@@ -549,7 +635,8 @@ LEVEL_TEXT = (
 )
 LEVEL_NOTE = (
     "Trusted: CPython eval/exec/str, the reference interpreter mc/c05_ref.py and the finaliser/printer mc/c05_ir.py "
-    "(a wrong reference fails on the unchanged tree). DONT_CARE: `caller` inside anonymous blocks, `caller` seen by defs "
-    "invoked inside a call-with-content's argument expressions, exception paths other than arity TypeError."
+    "(a wrong reference fails on the unchanged tree). DONT_CARE: `caller` inside anonymous blocks and inside defs written "
+    "in a call that are invoked without content, `caller` seen by defs invoked inside a call-with-content's argument "
+    "expressions, exception paths other than arity TypeError."
 )
-READY = False
+READY = True
